@@ -4,6 +4,8 @@
 // EVERY operation every live field is compared with its model at every cell, through a freshly
 // made view and through the long-lived view made when the field last (re)acquired its storage.
 #include <cstdint>
+#include <new>
+#include <cstring>
 #include <optional>
 #include <sstream>
 #include <tuple>
@@ -108,8 +110,8 @@ struct Model {
     std::vector<double> v;
 };
 
-enum Kind { CONSTRUCT, WRITE, COPY_CONSTRUCT, MOVE_CONSTRUCT, COPY_ASSIGN, MOVE_ASSIGN, CONVERT_COPY, CONVERT_MOVE, DUMP_LOAD, ADOPT_TWICE, DESTROY, NKINDS };
-static const char * kname[NKINDS] = {"construct", "write", "copy-construct", "move-construct", "copy-assign", "move-assign", "convert-copy", "convert-move", "dump+load", "two-fields-from-one-named-storage", "destroy"};
+enum Kind { CONSTRUCT, DEFAULT_CONSTRUCT, WRITE, COPY_CONSTRUCT, MOVE_CONSTRUCT, COPY_ASSIGN, MOVE_ASSIGN, CONVERT_COPY, CONVERT_MOVE, DUMP_LOAD, ADOPT_TWICE, DESTROY, NKINDS };
+static const char * kname[NKINDS] = {"construct", "default-construct", "write", "copy-construct", "move-construct", "copy-assign", "move-assign", "convert-copy", "convert-move", "dump+load", "two-fields-from-one-named-storage", "destroy"};
 struct Op {
     Kind k;
     int dst, src, type, ext, cellsel;
@@ -120,6 +122,7 @@ static std::string show(const Op & o)
     s << kname[o.k] << "(";
     switch (o.k) {
     case CONSTRUCT: s << "slot" << o.dst << "," << tname[o.type] << "," << EXT[o.ext][0] << "x" << EXT[o.ext][1]; break;
+    case DEFAULT_CONSTRUCT: s << "slot" << o.dst << "," << tname[o.type]; break;
     case WRITE: s << "slot" << o.dst << ",cell#" << o.cellsel; break;
     case DESTROY: s << "slot" << o.dst; break;
     case CONVERT_COPY:
@@ -180,6 +183,10 @@ struct Pool {
         const Model & d = m[o.dst];
         switch (o.k) {
         case CONSTRUCT: return d.state == 0;
+        // a default-constructed field has no cells and reports extents of zero -- for the row-major layer, whose default
+        // constructor delegates to the zero extent vector (the curve layers' `= default` leaves theirs indeterminate, so
+        // they are not asked).  The slot's memory has usually held another field before.
+        case DEFAULT_CONSTRUCT: return d.state == 0 && (o.type == 0 || o.type == 4);
         case WRITE: return d.state == 1 && d.ex * d.ey > 0;
         case DESTROY: return d.state != 0;
         case COPY_CONSTRUCT:
@@ -204,6 +211,20 @@ struct Pool {
                 vw<T.value>(o.dst).emplace(*fld<T.value>(o.dst));
             });
             d = Model{1, o.type, EXT[o.ext][0], EXT[o.ext][1], std::vector<double>(EXT[o.ext][0] * EXT[o.ext][1] * MAXC, 0.0)};
+            break;
+        case DEFAULT_CONSTRUCT:
+            dispatch(o.type, [&](auto T) {
+                // DEFAULT-initialised (`new (p) F;`, as `F f;` or `new F` do -- not value-initialised) in memory that
+                // holds other bytes, then moved into the slot
+                using F = typename type_of<T.value>::type;
+                alignas(F) unsigned char buf[sizeof(F)];
+                std::memset(buf, 0xA5, sizeof buf);
+                F * p = ::new (static_cast<void *>(buf)) F;
+                fld<T.value>(o.dst).emplace(std::move(*p));
+                p->~F();
+                vw<T.value>(o.dst).emplace(*fld<T.value>(o.dst));
+            });
+            d = Model{1, o.type, 0, 0, {}};
             break;
         case WRITE: {
             unsigned ncell = d.ex * d.ey;
@@ -409,6 +430,8 @@ static std::vector<Op> alphabet(int ta, int tb)
     for (int s = 0; s < 2; ++s) {
         for (int t : {ta, tb})
             for (int e = 0; e < 3; ++e) a.push_back({CONSTRUCT, s, -1, t, e, 0});
+        for (int t : {ta, tb})
+            if (t == 0 || t == 4) a.push_back({DEFAULT_CONSTRUCT, s, -1, t, 0, 0});
         for (int c = 0; c < 2; ++c) a.push_back({WRITE, s, -1, -1, 0, c});
         a.push_back({DESTROY, s, -1, -1, 0, 0});
         for (int r = 0; r < 2; ++r) {
